@@ -23,9 +23,14 @@ type Execution struct {
 }
 
 func NewExecution(query promql.Query, pool *model.VectorPool, opts *query.Options) *Execution {
+	// The remote engine has evaluated the query on the same step grid, so its
+	// result must be read back without a lookback. Otherwise a series that
+	// ends or has a gap remotely is extended by the lookback delta.
+	remoteOpts := *opts
+	remoteOpts.LookbackDelta = 0
 	return &Execution{
 		query:          query,
-		vectorSelector: scan.NewVectorSelector(pool, newStorageFromQuery(query), opts, 0, 0, 1),
+		vectorSelector: scan.NewVectorSelector(pool, newStorageFromQuery(query), &remoteOpts, 0, 0, 1),
 	}
 }
 
